@@ -6,7 +6,26 @@ import os, sys, time
 sys.path.insert(0, os.path.dirname(os.path.abspath(__file__)))
 import vlib
 
+def snapshot():
+    """regenerate lean/NodisVerif/Translated/Snapshot.lean from the current tree (namespace NodisVerif.Snap)"""
+    exe = f"{vlib.BUILD}/extract"
+    os.makedirs(vlib.BUILD, exist_ok=True)
+    rc, so, se = vlib.sh(["go", "build", "-o", exe, "."], cwd=f"{vlib.ROOT}/extract", env=vlib.GOENV)
+    rc, gen, se = vlib.sh([exe, "-translate", vlib.REPO, f"{vlib.ROOT}/extract/go2lean.targets"])
+    if rc != 0:
+        print(se)
+        return 1
+    head = ("import NodisVerif.Model.GoLib\n/- SNAPSHOT of the translator's output (extract -translate) for the repository as it was when the theorems of\n"
+            "   Proofs/Snap*.lean were written; regenerate with bin/translate_check.py --snapshot. The per-run obligations\n"
+            "   (translated/*.lean) show that the freshly translated functions equal these, then reuse the theorems. -/\n")
+    body = "\n".join(gen.splitlines()[1:]).replace("NodisVerif.Translated", "NodisVerif.Snap")
+    open(f"{vlib.LEAN}/NodisVerif/Translated/Snapshot.lean", "w").write(head + body + "\n")
+    return 0
+
+
 def main():
+    if sys.argv[1:] == ["--snapshot"]:
+        return snapshot()
     want = sys.argv[1:]
     groups = [g for g in vlib.translated_groups() if not want or g["name"] in want]
     work = f"{vlib.WORK}/translated"
